@@ -372,7 +372,8 @@ def weave_fn(sf, it, spec, log, where, canary=False):
             ed.add(semi.start, semi.start, _contract_text(spec, canary))
         return ed.render()
     ed = Edits(sf, toks[it.attr_lo].start, toks[it.hi - 1].end)
-    generic_attr_edits(sf, it.attr_lo, it.hi, ed, log, where)
+    sig_only = spec is not None and spec.mode == 'assumed_sig'   # the body is dropped: no edit may touch it
+    generic_attr_edits(sf, it.attr_lo, it.body_lo if sig_only else it.hi, ed, log, where)
     body_open = toks[it.body_lo]
     protected = []
     # declared rewrites (R1/R2/R3/R7...) : token-sequence match, exactly once (or every occurrence with 'all')
@@ -401,7 +402,7 @@ def weave_fn(sf, it, spec, log, where, canary=False):
     # R10: alpha-renaming of a parameter (Verus rejects a contract on `fn f(.., f: T)`)
     for old_name, new_name in (spec.params or {}).items():
         cnt = 0
-        for k in range(it.kw + 2, it.hi):
+        for k in range(it.kw + 2, it.body_lo if sig_only else it.hi):
             t = toks[k]
             if t.kind == 'ident' and t.text == old_name and toks[k - 1].text not in ('.', '::') and toks[k + 1].text not in ('(', '::'):
                 ed.add(t.start, t.end, new_name)
@@ -558,6 +559,8 @@ def weave_fn(sf, it, spec, log, where, canary=False):
                     log.rw('R9', where, 'closure body `%s`' % sf.text[nxt.start:toks[j - 1].end][:80], 'wrapped in a block to carry its contract')
     if spec.desugar_enumerate and spec.mode == 'verify':
         auto_enumerate_edits(sf, it.body_lo, it.body_hi, ed, log if not canary else Log(), where, protected)
+    if sig_only:
+        return ed.render()
     if spec.inline_and_then:
         auto_and_then_edits(sf, it.body_lo, it.body_hi, ed, log if not canary else Log(), where, protected)
     closure_underscore_edits(sf, it.body_lo, it.body_hi, ed, log, where, protected)
